@@ -15,7 +15,8 @@ EXPLANATION = (
     "the 'v' back-map is its exact affine inverse (composition = identity), [V_min, V_max] = shortest_int(signal, 99.99), any other otype "
     "raises ValueError. C18.3: shortest_int sorts the data, uses lag = int(len*p/100), forms the candidates sorted[lag:]-sorted[:-lag] and "
     "returns (sorted[i], sorted[i+lag]) where i is argmin of the candidates (an element of the minimiser set); an index computed "
-    "arithmetically from several minimisers (mean, midpoint) need not be a minimiser and is reported. Not decided: distribution-"
+    "arithmetically from several minimisers (mean, midpoint) need not be a minimiser and is reported; the truncated quantity is "
+    "(p*len)/100 evaluated product-first (floor makes the floating-point rounding order observable). C18.4: no late binding of gv. Not decided: distribution-"
     "dependent behaviour.")
 TRUSTED = ["numpy.round/clip/sort/argmin semantics"]
 
